@@ -1,0 +1,18 @@
+//! Verification hook (compiled only with `--cfg libp2p_verif`): the id of a [`Substream`], which
+//! the public `StreamMuxer` API does not reveal.  Add-only; reads the private field `Substream::id`
+//! (visible here because this module is a child of the crate root) through `Display`.
+
+use futures::{AsyncRead, AsyncWrite};
+
+use crate::Substream;
+
+/// `(num, is_dialer)` of the substream's `LocalStreamId` (`"(num/initiator)"` / `"(num/receiver)"`).
+pub fn substream_id<C>(s: &Substream<C>) -> (u64, bool)
+where
+    C: AsyncRead + AsyncWrite + Unpin,
+{
+    let d = s.id.to_string();
+    let inner = &d[1..d.len() - 1];
+    let (num, role) = inner.split_once('/').expect("LocalStreamId display");
+    (num.parse().expect("LocalStreamId num"), role == "initiator")
+}
